@@ -447,6 +447,11 @@ func builtinsDoNotMutateOperandStorage(c *core.Ctx) {
 					for _, o := range core.Origins(v) {
 						if call, ok := o.(*ssa.Call); ok {
 							if cal := call.Call.StaticCallee(); cal != nil && exposing[cal] != "" {
+								// the storage of an object that was made a moment ago, for this call
+								// alone (m.Keys().Value()), is nobody else's
+								if len(call.Call.Args) > 0 && madeForThisCall(call.Call.Args[0]) {
+									continue
+								}
 								name = core.SSAName(cal)
 							}
 						}
@@ -488,4 +493,110 @@ func builtinsDoNotMutateOperandStorage(c *core.Ctx) {
 	}
 	c.Stat("sorts_and_element_stores_checked", n)
 	c.Stat("exposing_accessors", len(exposing))
+}
+
+// madeForThisCall: v is the result of a call of a function that hands out a
+// new object on new storage on every path (Map.Keys, Set.List): an Alloc whose
+// slice fields are filled from make/append, or from another such function.
+func madeForThisCall(v ssa.Value) bool {
+	for _, o := range core.Origins(v) {
+		call, ok := o.(*ssa.Call)
+		if !ok {
+			return false
+		}
+		cal := call.Call.StaticCallee()
+		if cal == nil || !freshMaker(cal, 0) {
+			return false
+		}
+	}
+	return true
+}
+
+func freshMaker(g *ssa.Function, depth int) bool {
+	if g.Blocks == nil || depth > 2 || !core.RepoFunc(g) {
+		return false
+	}
+	nret := 0
+	for _, b := range g.Blocks {
+		for _, in := range b.Instrs {
+			r, ok := in.(*ssa.Return)
+			if !ok || len(r.Results) == 0 {
+				continue
+			}
+			nret++
+			for _, o := range core.Origins(r.Results[0]) {
+				switch x := o.(type) {
+				case *ssa.Alloc:
+					if !x.Heap || x.Referrers() == nil {
+						return false
+					}
+					// every slice stored into a field of the new object is new
+					for _, ref := range *x.Referrers() {
+						fa, ok := ref.(*ssa.FieldAddr)
+						if !ok || fa.Referrers() == nil {
+							continue
+						}
+						for _, r2 := range *fa.Referrers() {
+							if st, ok := r2.(*ssa.Store); ok && st.Addr == ssa.Value(fa) {
+								if _, isSl := st.Val.Type().Underlying().(*types.Slice); isSl && !freshSlice(st.Val, depth) {
+									return false
+								}
+							}
+						}
+					}
+				case *ssa.MakeSlice:
+				case *ssa.Call:
+					if c2 := x.Call.StaticCallee(); c2 == nil || !freshMaker(c2, depth+1) {
+						if bi, ok := x.Call.Value.(*ssa.Builtin); !ok || bi.Name() != "append" || !freshSlice(x, depth) {
+							return false
+						}
+					}
+				default:
+					return false
+				}
+			}
+		}
+	}
+	return nret > 0
+}
+
+// freshSlice: the slice was made in this function (make, or appends to one
+// that was), or by a function that hands out new slices.
+func freshSlice(v ssa.Value, depth int) bool {
+	seen := map[ssa.Value]bool{}
+	var walk func(v ssa.Value) bool
+	walk = func(v ssa.Value) bool {
+		if seen[v] {
+			return true
+		}
+		seen[v] = true
+		for _, o := range core.Origins(v) {
+			switch x := o.(type) {
+			case *ssa.MakeSlice:
+			case *ssa.Const:
+			case *ssa.Slice:
+				if !walk(x.X) {
+					return false
+				}
+			case *ssa.Alloc:
+				if !x.Heap {
+					return false
+				}
+			case *ssa.Call:
+				if bi, ok := x.Call.Value.(*ssa.Builtin); ok && bi.Name() == "append" && len(x.Call.Args) > 0 {
+					if !walk(x.Call.Args[0]) {
+						return false
+					}
+					continue
+				}
+				if c2 := x.Call.StaticCallee(); c2 == nil || !freshMaker(c2, depth+1) {
+					return false
+				}
+			default:
+				return false
+			}
+		}
+		return true
+	}
+	return walk(v)
 }
